@@ -107,9 +107,11 @@ def _x_obs(rng, x, cov=None):
 
 def kn_cases(rng, ctx, xs):
     cases = []
+    kept = []
     for n in range(0, 7):
         for x in xs:
             xo = _x_obs(rng, x)
+            kept.append((n, x, xo))
             try:
                 r = pe.derived_observable(lambda v, **kw: pe.special.kn(n, v[0]), [xo])
                 res = project_any(r)
@@ -128,6 +130,22 @@ def kn_cases(rng, ctx, xs):
         for j in range(len(xv)):
             ej = {'op': 'add', 'a': [{'op': 'kn', 'n': n, 'a': [{'op': 'var', 'i': j + 1}]}, {'op': 'var', 'i': j + 1}]}
             cases.append({'id': 'knv-%d-%d' % (n, j), 'ev': 'expr', 'mode': 'auto', 'expr': ej, 'ops': [project_obs(o) for o in xv], 'res': outs[j]})
+    # history: a long session - several hundred other evaluations of K_n at other orders and arguments - and then the first requests once more, on
+    # the very same observables: K_n(x) and its derivative are functions of n and x, whatever was evaluated in between
+    for n in range(0, 9):
+        for x in np.linspace(0.11, 9.7, 40):
+            pe.special.kn(n, float(x))
+    for x in np.linspace(0.2, 5.0, 12):
+        xo = _x_obs(rng, float(x))
+        for n in range(0, 7):
+            pe.derived_observable(lambda v, **kw: pe.special.kn(n, v[0]), [xo])
+    for n, x, xo in kept:
+        try:
+            res = project_any(pe.derived_observable(lambda v, **kw: pe.special.kn(n, v[0]), [xo]))
+        except Exception as e:  # noqa: BLE001
+            res = project_exc(e)
+        cases.append({'id': 'kn-again-%d-%.4g' % (n, x), 'ev': 'expr', 'mode': 'auto', 'expr': {'op': 'kn', 'n': n, 'a': [{'op': 'var', 'i': 1}]},
+                      'ops': [project_obs(xo)], 'res': res})
     return cases
 
 
